@@ -2,7 +2,6 @@ package sim
 
 import (
 	"bytes"
-	"errors"
 	"fmt"
 	"io"
 	"testing"
@@ -355,6 +354,10 @@ func TestC12Lru(t *testing.T) {
 			flaky := &flakyRS{ReadSeeker: rs, FailAt: -1}
 			if rapid.IntRange(0, 3).Draw(rt, "flaky") == 0 {
 				flaky.FailAt = rapid.IntRange(1, 6).Draw(rt, "flakyat")
+				// (a reader's own error may be any value, io.ErrUnexpectedEOF included: a connection
+				// that went away in the middle of a response)
+				flaky.Err = rapid.SampledFrom([]error{ErrInjected, ErrInjected, io.ErrUnexpectedEOF}).Draw(rt, "flakyerr")
+				flaky.Partial = rapid.Bool().Draw(rt, "flakypartial")
 			}
 			rs = flaky
 			if err := lf.Reset(rs); err != nil {
@@ -391,8 +394,9 @@ func TestC12Lru(t *testing.T) {
 				var na int
 				var ea error
 				posBefore, _ := model.Seek(0, io.SeekCurrent)
+				firedBefore := flaky.Fired
 				p := Recover(func() { na, ea = lf.Read(pa) })
-				if p == "" && ea != nil && errors.Is(ea, ErrInjected) {
+				if p == "" && ea != nil && flaky.Fired > firedBefore {
 					// the injected error: go back to where the read started and read again
 					Ev.Fault("transient_read_error_on_old_file", 1)
 					script = append(script, "(read failed: injected error; seek back, read again)")
@@ -440,13 +444,27 @@ func TestC12Lru(t *testing.T) {
 type flakyRS struct {
 	io.ReadSeeker
 	FailAt int
-	reads  int
+	// Err is the error value of the failure (default ErrInjected); Partial: the failing read
+	// delivers half of what was asked for along with it
+	Err     error
+	Partial bool
+	reads   int
+	Fired   int
 }
 
 func (f *flakyRS) Read(p []byte) (int, error) {
 	f.reads++
 	if f.reads == f.FailAt {
-		return 0, ErrInjected
+		f.Fired++
+		err := f.Err
+		if err == nil {
+			err = ErrInjected
+		}
+		if f.Partial && len(p) > 1 {
+			n, _ := f.ReadSeeker.Read(p[:len(p)/2])
+			return n, err
+		}
+		return 0, err
 	}
 	return f.ReadSeeker.Read(p)
 }
